@@ -94,14 +94,34 @@ def check(ctx):
         # what each local holds
         lets = {}
         for st in fn.body:
-            if st.get("k") == "let" and st["pat"].get("k") == "ident" and st.get("init"):
-                lets[st["pat"]["name"]] = st["init"]
+            pt_ = st.get("pat") or {}
+            if pt_.get("k") == "typed":
+                pt_ = pt_["pat"]
+            if st.get("k") == "let" and pt_.get("k") == "ident" and st.get("init"):
+                lets[pt_["name"]] = st["init"]
         def renders(var, tpl):
             init = lets.get(var)
             if init is None:
                 return False
             return any(x.get("k") == "mcall" and x["method"] == "render" and x["args"] and lit_str(x["args"][0]) == tpl for x in walk(init))
-        ok_struct = inserts.get("struct_schemas") in lets and any(
+        def deep_mentions(e, name, owner, depth=0):
+            """does expression e call `name`, directly, inside a closure, or through a private helper of the same type?"""
+            for x in walk(e):
+                if x.get("k") == "mcall" and x["method"] == name:
+                    return True
+                if x.get("k") == "call" and x["func"].get("k") == "path" and x["func"]["segs"][-1] == name:
+                    return True
+                callee = x["method"] if x.get("k") == "mcall" else (x["func"]["segs"][-1] if x.get("k") == "call" and x["func"].get("k") == "path" else None)
+                if callee and depth < 2:
+                    for g in S.fns:
+                        if g.name == callee and g.owner == owner and g.body is not None and g.name != fn.name:
+                            if any(deep_mentions(y, name, owner, depth + 1) for y in walk_block(g.body)):
+                                return True
+            return False
+        sv_ = inserts.get("struct_schemas")
+        ok_struct_alt = sv_ in lets and deep_mentions(lets[sv_], "generate_struct_schema", fn.owner) and not any(
+            x.get("k") == "mcall" and x["method"] in ("push_str", "insert_str", "clear", "truncate") and expr_text(x["recv"]) == sv_ for x in walk_block(fn.body))
+        ok_struct = ok_struct_alt or inserts.get("struct_schemas") in lets and any(
             x.get("k") == "mcall" and x["method"] == "push_str" and expr_text(x["recv"]) == inserts.get("struct_schemas") and "generate_struct_schema" in expr_text(x["args"][0])
             for x in walk_block(fn.body))
         if ok_struct:
@@ -127,20 +147,24 @@ def check(ctx):
     else:
         f = gf[0]
         ts = [c for c in f.calls if short_path(c.best) == "CommandAnalyzer::topological_sort_types"]
-        gs = [c for c in f.calls if short_path(c.best) == "ZodBindingsGenerator::generate_struct_schema"]
+        gsites = P.find_call_sites(f.id, lambda c: short_path(c.best) == "ZodBindingsGenerator::generate_struct_schema")
+        gs = [c for (_, c) in gsites]
         if len(ts) != 1 or not gs:
             r2.bad(V(r2.id, f.id, "shape:%d:%d" % (len(ts), len(gs)), "expected one topological_sort_types call and a generate_struct_schema loop"))
         else:
-            heads = f.enclosing_loop_heads(gs[0].bb)
+            # the emission is repeated over the sorted list: a `for` loop over it, or an iterator chain over it whose closure emits
+            srcs = P.iteration_sources(f.id, gsites[0][0], gsites[0][1])
             okh = False
-            for h in heads:
-                hc = f.call_at(h)
-                src = f.describe_origin(f.origin(hc.args[0]), deep=4)
-                if "topological_sort_types" in src and not re.search(r"\b(rev|sort\w*|dedup\w*|filter\w*|skip|take|step_by|chain)\(", src):
+            outer = [x for x in srcs if "topological_sort_types" in x]
+            for src in outer[-1:]:
+                if not re.search(r"\b(rev|sort\w*|dedup\w*|filter\w*|skip|take|step_by|chain)\(", src):
                     okh = True
                     r2.ok("loop source: %s" % src[:100])
                 else:
-                    r2.bad(V(r2.id, f.id, "loop-source:%s" % src[:80], "the struct-schema loop iterates `%s`, not the topological order as returned" % src, hc.file, hc.line))
+                    r2.bad(V(r2.id, f.id, "loop-source:%s" % src[:80], "the struct-schema loop iterates `%s`, not the topological order as returned" % src, gs[0].file, gs[0].line))
+            if not outer and srcs:
+                r2.bad(V(r2.id, f.id, "loop-source:%s" % srcs[-1][:80], "the struct-schema loop iterates `%s`, not the topological order as returned" % srcs[-1], gs[0].file, gs[0].line))
+            heads = srcs
             if not heads:
                 r2.bad(V(r2.id, f.id, "no-loop", "generate_struct_schema is not called in a loop over the sorted names"))
             # the sorted vector is not mutated between the sort and the loop
